@@ -292,7 +292,17 @@ func lenGuardCut(p *core.Program, fn *ssa.Function, xs string, c int64) (core.Ed
 	return cut, n
 }
 
-var reRegexpGlobal = regexp.MustCompile(`regexp\.Regexp\.Find(All)?String(Submatch|Index|SubmatchIndex)?\((\w+)\.(\w+),`)
+var reRegexpGlobal = regexp.MustCompile(`regexp\.Regexp\.Find(All)?String(Submatch|Index|SubmatchIndex)?\(rx‹(.*?)›,`)
+
+// rxGroupsOf returns the number of capture groups of a private package-level regexp as it is
+// rendered in canonical forms (by pattern).
+func rxGroupsOf(pattern string) (int, bool) {
+	re, err := regexp.Compile(pattern)
+	if err != nil {
+		return 0, false
+	}
+	return re.NumSubexp(), true
+}
 
 // C01: every entry point is total (panic-freedom skeleton).
 func C01(p *core.Program, r *core.Report) {
@@ -428,7 +438,6 @@ func C01(p *core.Program, r *core.Report) {
 	r.Add("T2", "cross-object slice bounds examined", "", nT2 >= 2, fmt.Sprintf("%d sites", nT2))
 
 	// ---- T3
-	rxGroups := regexpGroupCounts(p)
 	nT3 := 0
 	for _, fn := range fns {
 		for _, b := range fn.Blocks {
@@ -477,7 +486,7 @@ func C01(p *core.Program, r *core.Report) {
 					nT3++
 					xs := c.Of(xv)
 					key := fmt.Sprintf("%s: %s[%d]", unitName(fn), shortVal(xs), k)
-					ok, why := constIndexSafe(p, fn, in, xs, k, rxGroups)
+					ok, why := constIndexSafe(p, fn, in, xs, k)
 					r.Add("T3", key, p.Pos(in.Pos()), ok, why)
 				}
 			}
@@ -577,23 +586,8 @@ func balancedArg(s string) string {
 	return ""
 }
 
-// regexpGroupCounts compiles the regexp literals of the module's package-level variables and
-// returns the number of capture groups per "pkg.var".
-func regexpGroupCounts(p *core.Program) map[string]int {
-	out := map[string]int{}
-	for _, pkg := range p.Pkgs {
-		rel := strings.TrimPrefix(pkg.PkgPath, core.ModPath+"/")
-		for name, pat := range regexpLiterals(p, rel) {
-			if re, err := regexp.Compile(pat); err == nil {
-				out[pkg.Name+"."+name] = re.NumSubexp()
-			}
-		}
-	}
-	return out
-}
-
 // constIndexSafe decides x[k] for a constant k.
-func constIndexSafe(p *core.Program, fn *ssa.Function, in ssa.Instruction, xs string, k int64, groups map[string]int) (bool, string) {
+func constIndexSafe(p *core.Program, fn *ssa.Function, in ssa.Instruction, xs string, k int64) (bool, string) {
 	// strings.Split always returns at least one element
 	if strings.HasPrefix(xs, "strings.Split(") && k == 0 {
 		return true, "strings.Split returns at least one element"
@@ -607,12 +601,12 @@ func constIndexSafe(p *core.Program, fn *ssa.Function, in ssa.Instruction, xs st
 	}
 	// every element of FindAllStringSubmatch / FindAllStringIndex is complete
 	if m := reRegexpGlobal.FindStringSubmatch(xs); m != nil && strings.HasPrefix(xs, "elem(regexp.Regexp.FindAll") {
-		g, known := groups[m[3]+"."+m[4]]
+		g, known := rxGroupsOf(m[3])
 		if strings.Contains(xs, "FindAllStringIndex") && k <= 1 {
 			return true, "an index pair has two elements"
 		}
 		if known && k <= int64(g) {
-			return true, fmt.Sprintf("each match of %s.%s has %d groups", m[3], m[4], g)
+			return true, fmt.Sprintf("each match of /%s/ has %d groups", m[3], g)
 		}
 	}
 	// guarded by a length test of the same value
@@ -624,9 +618,9 @@ func constIndexSafe(p *core.Program, fn *ssa.Function, in ssa.Instruction, xs st
 	if n > 0 && !core.InstrReachable(fn, cut, in) {
 		// a non-nil test suffices only for complete regexp submatches
 		if m := reRegexpGlobal.FindStringSubmatch(xs); m != nil && strings.HasPrefix(xs, "regexp.Regexp.FindStringSubmatch(") {
-			g, known := groups[m[3]+"."+m[4]]
+			g, known := rxGroupsOf(m[3])
 			if !known || k > int64(g) {
-				return false, fmt.Sprintf("group %d does not exist in %s.%s", k, m[3], m[4])
+				return false, fmt.Sprintf("group %d does not exist in /%s/", k, m[3])
 			}
 		}
 		return true, "dominated by a length test of the same value"
